@@ -92,7 +92,7 @@ func vaNear(k, scale, offset float64) []float64 {
 
 var vaWild = []float64{0, math.Copysign(0, -1), 1e-320, 5e-324, -5e-324, 1e300, -1e300, math.MaxFloat64, math.Inf(1), math.Inf(-1), math.NaN(),
 	4294967295, 4294967296, 4294967295.5, -0.4, -0.5, -0.6, -1, 65535.4, 65535.5, 255.5, 127.5, -128.5, 2147483647.5, -2147483648.5,
-	9007199254740992, 9007199254740993, 9223372036854775807, 18446744073709551615, 1.8446744073709552e19, 0.1, 0.29, 1.0 / 3}
+	0.49999999999999994, -0.49999999999999994, 1.5, 2.5, -1.5, -2.5, 9007199254740992, 9007199254740993, 9223372036854775807, 18446744073709551615, 1.8446744073709552e19, 0.1, 0.29, 1.0 / 3}
 
 func genValidateArith(emitSeq vaEmit, thorough bool, rng *Rng) {
 	scaled := vaScaledFields()
@@ -125,7 +125,11 @@ func genValidateArith(emitSeq vaEmit, thorough bool, rng *Rng) {
 		if !thorough && i%4 != 0 {
 			continue
 		}
-		for _, k := range []float64{0, 28, float64(raws[len(raws)-1] % 60000)} {
+		ks := []float64{0, 28, float64(raws[len(raws)-1] % 60000)}
+		if _, signed := map[basetype.BaseType]bool{basetype.Sint8: true, basetype.Sint16: true, basetype.Sint32: true, basetype.Sint64: true}[bt]; signed {
+			ks = append(ks, -1, -29, -float64(raws[len(raws)-1]%100)-2) // halves on the negative side: math.Round goes away from zero
+		}
+		for _, k := range ks {
 			for _, x := range vaNear(k, sf.f.Scale, sf.f.Offset) {
 				emitSeq("validate", false, true, nil, mesg(sf.mn, withValue(sf.f, proto.Float64(x))), "")
 				count("arith-near-half")
